@@ -871,3 +871,34 @@ func Owned(f func() []byte) string {
 	}
 	return ""
 }
+
+// Disjoint checks that results handed out by the library do not reach into
+// one another: the spare capacity behind every result (what an append by its
+// owner would use) is overwritten, after which every result must still hold
+// what it held. Results cut from a shared block without a capacity limit
+// fail. Returns "" or a description.
+func Disjoint(rs [][]byte) string {
+	copies := make([][]byte, len(rs))
+	for i, r := range rs {
+		copies[i] = append([]byte(nil), r...)
+	}
+	for _, r := range rs {
+		full := r[:cap(r)]
+		for k := len(r); k < len(full); k++ {
+			full[k] = 0xEE
+		}
+	}
+	for i, r := range rs {
+		if string(r) != string(copies[i]) {
+			return fmt.Sprintf("result %d (% X) changed to % X when the spare capacity behind the other results was written (an append by their owner)", i, clipB(copies[i]), clipB(r))
+		}
+	}
+	return ""
+}
+
+func clipB(b []byte) []byte {
+	if len(b) > 24 {
+		return b[:24]
+	}
+	return b
+}
